@@ -84,6 +84,21 @@ theorem batch_double_compress_dalek (ps : List RistrettoDalek.RPt)
     rw [add_zero]; exact hadd
   exact (encodeExt_coset (repExt_of_rep hq) hadd' (smul_zero 4) ⟨R, (two_nsmul R).symm⟩).symm
 
+/-! ### The hypotheses are satisfiable -/
+
+/-- `2B` is a valid point of the even subgroup, with an extended representation -/
+example : ∃ (e : EPt) (Q : Ed), ERep e Q ∧ ∃ R : Ed, Q = 2 • R :=
+  ⟨EPt.ofAffine (Pt.double B), 2 • Bridge.Bpt, Bridge.erep_ofAffine (Bridge.rep_double Bridge.rep_B),
+    Bridge.Bpt, rfl⟩
+
+/-- a canonical valid internal representative (the identity `(0 : 1 : 1 : 0)`) -/
+example : CanonR (0, 1, 1, 0) ∧ (toEPt (0, 1, 1, 0)).Valid :=
+  ⟨by unfold CanonR; decide, ⟨0, Bridge.erep_zero⟩⟩
+
+/-- the batch function on a concrete list (kernel evaluation): identity and `B`; compare RFC 9496 A.1 `2B` -/
+example : RistrettoDalek.doubleAndCompressBatch [(0, 1, 1, 0), (B.x, B.y, 1, fmul B.x B.y)] =
+    [Ristretto.encode Pt.zero, Ristretto.encode (Pt.double B)] := by decide +kernel
+
 /-- info: 'Dalek.Props.C06.encode_torsion_invariant' depends on axioms: [propext, Classical.choice, Quot.sound] -/
 #guard_msgs in #print axioms encode_torsion_invariant
 /-- info: 'Dalek.Props.C06.batch_double_compress' depends on axioms: [propext, Classical.choice, Quot.sound] -/
